@@ -528,6 +528,11 @@ pub fn run_c06(ctx: &mut Ctx) {
                         if c0.out.res.is_ok() {
                             ctx.nontrivial(crate::util::case_key(&f, args, args, &[op.name.as_bytes(), &base.bits().to_le_bytes()[..]].concat()));
                         }
+                        if c0.out.res.same_kind(&c1.out.res) && c0.out.counts != c1.out.counts {
+                            let rec = call_record(&f, op, args, base, u64::MAX, &c0, 0);
+                            ctx.violation("malachite-changes-allocator-counts", json!({"num_bigint": rec, "counts_num_bigint": c0.out.counts.to_json(),
+                                "counts_malachite": c1.out.counts.to_json()}));
+                        }
                         if !(c0.out.res.same_kind(&c1.out.res) && c0.result == c1.result) {
                             let rec = call_record(&f, op, args, base, u64::MAX, &c0, 0);
                             ctx.violation("malachite-differs", json!({"num_bigint": rec, "malachite": c1.out.res.to_json(),
@@ -572,6 +577,12 @@ pub fn run_c06(ctx: &mut Ctx) {
             ctx.nontrivial(crate::util::case_key(&f, args, args, &[op.name.as_bytes(), &base.bits().to_le_bytes()[..], &budget.to_le_bytes()[..]].concat()));
             ctx.sample(|| call_record(&f, op, args, base, budget, &c0, 0));
         }
+        // allocator accounting is part of what a caller can observe (atom_count / pair_count / heap_size)
+        if c0.out.res.same_kind(&c1.out.res) && c0.out.counts != c1.out.counts {
+            let rec = call_record(&f, op, args, base, budget, &c0, 0);
+            ctx.violation("malachite-changes-allocator-counts", json!({"num_bigint": rec, "counts_num_bigint": c0.out.counts.to_json(),
+                "counts_malachite": c1.out.counts.to_json(), "plan_seed": plan, "vary": vary}));
+        }
         let same = c0.out.res.same_kind(&c1.out.res) && c0.result == c1.result;
         if !same {
             let rec = call_record(&f, op, args, base, budget, &c0, 0);
@@ -602,6 +613,13 @@ pub fn run_c06(ctx: &mut Ctx) {
         };
         ctx.eval();
         ctx.count("program_level_cases");
+        if o0.res.same_kind(&o1.res) && o0.counts != o1.counts {
+            let mut j = crate::util::prog_json(&f, p.prog, p.env);
+            j["flags"] = flags_json(base);
+            j["counts_num_bigint"] = o0.counts.to_json();
+            j["counts_malachite"] = o1.counts.to_json();
+            ctx.violation("malachite-changes-allocator-counts", j);
+        }
         if !o0.res.same_kind(&o1.res) {
             let mut j = crate::util::prog_json(&f, p.prog, p.env);
             j["flags"] = flags_json(base);
